@@ -52,6 +52,7 @@ CONSTANTS NH,          \* pool-answerable hash ids 1..NH
           InitPools,   \* "empty" | "truth" : initial pool; "truth" = any subset of the first block's true txs
           MalClasses,  \* classes of malformed input on the other receive paths
           GuardFit,    \* TRUE: buildPendBlock checks that a group fits into the block (the repaired code)
+          Huge,        \* model number standing for an announced count of 2^40
           EmitOn
 
 VARIABLES blocks,   \* sequence of received block descriptors
@@ -149,8 +150,10 @@ RecvLight(lay, base, n, m, miner) ==
   /\ LET b == [lay |-> lay, base |-> base, n |-> n, m |-> m, miner |-> miner]
          id == Len(blocks) + 1 IN
      /\ blocks' = Append(blocks, b)
-     /\ IF n <= 0
-        THEN \* make([]*Transaction, n) / Txs[0]: panic on the receive goroutine, recovered, dropped
+     /\ IF n <= 0 \/ n > m
+        THEN \* announced count below 1 or above the hash-list length (Huge stands for 2^40): rejected
+             \* (before the repair: make()/index panics recovered on the receive goroutine, or an
+             \* allocation of n pointers that the runtime cannot satisfy - fatal, not recoverable)
              st' = Append(st, [phase |-> "dropped", c |-> <<>>, exp |-> FALSE, tr |-> TRUE, race |-> FALSE])
         ELSE LET c0 == [i \in 1..n |-> IF i = 1 /\ miner THEN MinerCell ELSE Nil]
                  r == Build(b, c0, TRUE) IN
@@ -237,9 +240,10 @@ TruthPools(lay) ==
      \A h \in 1..NH : f[h] # "absent" => h <= Len(lay) /\ f[h] = KindOf(lay[h])}
 
 Next ==
-  \/ \E lay \in Layouts, base \in 1..NH, n \in -1..7, m \in 0..7, miner \in BOOLEAN :
-        /\ n \in AllCounts(lay) /\ m \in AllLens(lay) /\ (miner \/ NilMiner)
-        /\ RecvLight(lay, base, n, m, miner)
+  \/ \E lay \in Layouts, base \in 1..NH, miner \in BOOLEAN :
+        \E n \in AllCounts(lay), m \in AllLens(lay) :
+           /\ (miner \/ NilMiner)
+           /\ RecvLight(lay, base, n, m, miner)
   \/ \E h \in 1..NH, k \in PoolKinds : PoolUpdate(h, k)
   \/ (InitPools = "truth" /\ \E lay \in Layouts : \E f \in TruthPools(lay) : SetPool(f))
   \/ \E i \in 1..MaxBlocks : Expire(i)
